@@ -18,9 +18,10 @@
     unknowns), every configuration with the F3 and F7 repairs, every pair of histories made of
     arbitrary calls (plain, interrupted by any oracle, panicking by any work budget), cache on or
     off on either side.
+  * `cache_transparent_acyclic`: the unconditional form for goals whose rank fits under the
+    overflow depth: the solve after any history returns, and returns what a fresh solver returns.
   NOT YET THEOREMS (differential only): the same statement for instances with inductive or
-  coinductive cycles (without mixed cycles); equality of panics (the theorem speaks about calls
-  that return: with a cache a deep goal can be answered where a fresh solver overflows).
+  coinductive cycles (without mixed cycles).
 -/
 import ChalkModel.Lemmas.FixedPointLemmas
 
@@ -91,6 +92,24 @@ theorem answer_is_semantic (inst : Instance) (rank : Nat → Nat) (hrank : Ranke
   (history_answer h3 h7 (semOf_isSem inst rank hrank) hrank h caching (Call.plain g) v hv).2
     ⟨rfl, fun b hb => by cases hb⟩
 
+/-- unconditional form for goals that fit under the overflow depth: after ANY history the plain
+    solve returns, and returns the value a fresh solver (cache on or off) returns -/
+theorem cache_transparent_acyclic (inst : Instance) (rank : Nat → Nat) (hrank : Ranked inst rank)
+    (cfg : Cfg) (h3 : cfg.fixF3 = true) (h7 : cfg.fixF7 = true) (h16 : cfg.fixF16 = true)
+    (hr : 1 ≤ cfg.rounds) (h : List Call) (caching caching' : Bool) (g : Nat)
+    (hfit : rank g < cfg.overflowDepth) :
+    solveOn inst cfg g (runHistory inst cfg h (St.fresh caching)) = .value (semOf inst rank g) ∧
+    solveOn inst cfg g (St.fresh caching') = .value (semOf inst rank g) := by
+  have hsem := semOf_isSem inst rank hrank
+  have hu : (Call.plain g).Uninterrupted := ⟨rfl, fun b hb => by cases hb⟩
+  obtain ⟨v, hv⟩ := history_call_returns h3 h7 h16 hr hsem hrank h caching (Call.plain g) rfl hfit
+  obtain ⟨w, hw⟩ := history_call_returns h3 h7 h16 hr hsem hrank [] caching' (Call.plain g) rfl hfit
+  have e1 := (history_answer h3 h7 hsem hrank h caching (Call.plain g) v hv).2 hu
+  have e2 := (history_answer h3 h7 hsem hrank [] caching' (Call.plain g) w hw).2 hu
+  have e1' : v = semOf inst rank g := e1
+  have e2' : w = semOf inst rank g := e2
+  exact ⟨by rw [← e1']; exact hv, by rw [← e2']; exact hw⟩
+
 /-! non-vacuity: a diamond over a chain, with a goal with unknowns on top -/
 def diamondTable : List (Bool × Bool × List (List Nat)) :=
   [(false, false, [[1], [2]]), (false, true, [[3, 4]]), (true, true, [[3], [4]]),
@@ -112,3 +131,4 @@ end Chalk.FixedPoint.C10
 #print axioms Chalk.FixedPoint.C10.cache_on_off_refuted
 #print axioms Chalk.FixedPoint.C10.cache_transparent_partial
 #print axioms Chalk.FixedPoint.C10.answer_is_semantic
+#print axioms Chalk.FixedPoint.C10.cache_transparent_acyclic
